@@ -70,3 +70,33 @@ func VerifC12FailedRefresh() {
 	}
 	verifReach("done")
 }
+
+// VerifC12KeyCollision: the result-cache key is a 64-bit hash; should two hosts ever
+// share a key, the item cached for one host is not served to the other: the verdict
+// still equals the one without the cache.
+//
+//verif:harness name=H12i-key-collision tier=quick,thorough bounds="hosts bad.example (listed) and good.example (not listed); the item cached for one host is also stored under the other host's key (an emulated collision), then the other host is asked; both directions" reach=done,collision-hit maxpaths=20000
+//verif:assume the collision is emulated by storing the cached item under the other host's key; the result cache is a stub honouring the agdcache contract
+func VerifC12KeyCollision() {
+	hashes, err := NewStorage("bad.example\n")
+	verifAssume(err == nil)
+	f := verifFilter(hashes, true, false)
+	plain := verifFilter(hashes, false, false)
+	cache := f.resCache.(*verifResCache)
+	msgs := verifConstructor(&dnsmsg.BlockingModeNullIP{}, 10*time.Second)
+	ctx := context.Background()
+	first, second := "bad.example", "good.example"
+	if verifChoice(2) == 1 {
+		first, second = second, first
+	}
+	_, err0 := f.FilterRequest(ctx, verifPlainRequester(first, dns.TypeA, msgs))
+	verifAssert("no-error", err0 == nil)
+	verifAssume(len(cache.vals) == 1)
+	cache.Set(internal.NewCacheKey(second, dns.TypeA, dns.ClassINET, false), cache.vals[0])
+	verifReach("collision-hit")
+	got, err1 := f.FilterRequest(ctx, verifPlainRequester(second, dns.TypeA, msgs))
+	want, err2 := plain.FilterRequest(ctx, verifPlainRequester(second, dns.TypeA, msgs))
+	verifAssert("no-error", err1 == nil && err2 == nil)
+	verifAssert("item-of-another-host-is-not-served", (got == nil) == (want == nil))
+	verifReach("done")
+}
